@@ -85,6 +85,42 @@ def handle (j : Json) : Except String Json := do
       | none => inv.map (fun r => skymaskRow r none ngrow)
       | some oms => List.zipWith (fun r o => skymaskRow r (some o) ngrow) inv oms
     pure (J.ofList ofFloats rows)
+  | "rejf" =>
+    let data ← floats j "data"
+    let shape ← J.fNats j "shape"
+    let model ← J.fOpt (J.list J.float) j "model"
+    let outmask ← J.fOpt bools j "outmask"
+    let inmask ← J.fOpt bools j "inmask"
+    let s ← floats j "s"
+    let o : Opts Float := {
+      useSigma := ← J.fBool j "useSigma"
+      lower := ← J.fOpt J.float j "lower"
+      upper := ← J.fOpt J.float j "upper"
+      maxdev := ← J.fOpt J.float j "maxdev"
+      hasIn := inmask.isSome
+      sticky := ← J.fBool j "sticky"
+      grow := ← J.fNat j "grow" }
+    let g : GroupOpts := { groupdim := ← J.fOpt (J.list J.nat) j "groupdim",
+                           groupsize := ← J.fOpt (J.list J.nat) j "groupsize",
+                           groupbadpix := ← J.fBool j "groupbadpix" }
+    pure (resJ (fun (r : List Bool × Bool) => Json.arr #[ofBools r.1, Json.bool r.2])
+      (djsRejectFull Float.sqrt o g shape data model outmask inmask s))
+  | "med2" =>
+    let a ← floats j "a"
+    let n0 ← J.fNat j "n0"
+    let n1 ← J.fNat j "n1"
+    let w ← J.fNat j "w"
+    pure (resJ ofFloats (djsMedianReflect2 medOdd n0 n1 a w))
+  | "damp" =>
+    let flux ← floats j "flux"
+    let invvar ← floats j "invvar"
+    let ea ← floats j "erfarg"
+    let ev ← floats j "erfval"
+    let tab := ea.zip ev
+    let erf (x : Float) : Float := match tab.find? (fun p => p.1.toBits == x.toBits) with
+      | some p => p.2
+      | none => 0.0 / 0.0
+    pure (resJ ofFloats (aestheticsDamp erf flux invvar))
   | _ => throw s!"C17: unknown op {op}"
 
 end PydlVerif.Driver.C17
